@@ -11,7 +11,7 @@ namespace TlxVerif.C04
 entries 1.. are the LCPs of neighbours -/
 def SortedLcp (input : List Str) (r : Res) : Prop :=
   r.out.Perm input ∧ r.out.Pairwise (fun a b => strLe a b = true) ∧ r.lcp.length = r.out.length ∧
-  ∀ i, 0 < i → i < r.out.length → r.lcp[i]? = some (lcp ((r.out[i - 1]?).getD []) ((r.out[i]?).getD []))
+  ∀ i, 0 < i → i < r.out.length → r.lcp[i]? = some (lcpT (lcp ((r.out[i - 1]?).getD []) ((r.out[i]?).getD [])))
 
 /-! ### the order -/
 
@@ -105,7 +105,7 @@ theorem lcpsOf_length : ∀ l : List Str, (lcpsOf l).length = l.length
   | s :: rest => by simp [lcpsOf, List.length_zipWith]
 
 theorem lcpsOf_get : ∀ (l : List Str) (i : Nat), 0 < i → i < l.length →
-    (lcpsOf l)[i]? = some (lcp ((l[i - 1]?).getD []) ((l[i]?).getD []))
+    (lcpsOf l)[i]? = some (lcpT (lcp ((l[i - 1]?).getD []) ((l[i]?).getD [])))
   | [], i, _, h => by simp at h
   | s :: rest, i + 1, _, h => by
     simp only [List.length_cons, Nat.add_lt_add_iff_right] at h
@@ -141,7 +141,7 @@ theorem baseSort_good (strs : List Str) : SortedLcp strs (baseSort strs) := by
 
 def lcpOk (out : List Str) (lcps : List Nat) : Prop :=
   lcps.length = out.length ∧
-  ∀ i, 0 < i → i < out.length → lcps[i]? = some (lcp ((out[i - 1]?).getD []) ((out[i]?).getD []))
+  ∀ i, 0 < i → i < out.length → lcps[i]? = some (lcpT (lcp ((out[i - 1]?).getD []) ((out[i]?).getD [])))
 
 /-- `bkt[b..]` as the walk sees it: the offset of the next bucket, then the following borders -/
 def boundsFrom (lo : Nat) : List Nat → List Nat
@@ -200,7 +200,7 @@ theorem lcpOk_nil : lcpOk [] [] := ⟨rfl, fun i _ h => by simp at h⟩
 
 /-- gluing a sorted block behind a sorted prefix; the LCP slot at the seam gets the value `v` -/
 theorem lcpOk_append {A B : List Str} {LA LB : List Nat} (hA : lcpOk A LA) (hB : lcpOk B LB) (hne : B ≠ [])
-    (v : Nat) (hv : A ≠ [] → v = lcp ((A.getLast?).getD []) ((B.head?).getD [])) :
+    (v : Nat) (hv : A ≠ [] → v = lcpT (lcp ((A.getLast?).getD []) ((B.head?).getD []))) :
     lcpOk (A ++ B) (LA ++ LB.set 0 (if A = [] then (LB.head?).getD 0 else v)) := by
   obtain ⟨hlA, hA⟩ := hA
   obtain ⟨hlB, hB⟩ := hB
@@ -357,7 +357,7 @@ theorem lcpPassGo_good (c : Classifier) (useCalc : Bool) (p : Str) :
       -- the value written at the seam
       have hlenLP : LP.length = P.length := hok.1
       have hlenr : r.lcp.length = r.out.length := hrok.1
-      obtain ⟨v, hv, hlcp⟩ : ∃ v, (P ≠ [] → v = lcp ((P.getLast?).getD []) ((r.out.head?).getD [])) ∧
+      obtain ⟨v, hv, hlcp⟩ : ∃ v, (P ≠ [] → v = lcpT (lcp ((P.getLast?).getD []) ((r.out.head?).getD []))) ∧
           walkLcp prev (LP ++ (r.lcp ++ (rs.map (·.lcp)).flatten)) P.length p.length k1 =
           (LP ++ r.lcp.set 0 (if P = [] then (r.lcp.head?).getD 0 else v)) ++ (rs.map (·.lcp)).flatten := by
         unfold PrevOk at hprev
@@ -378,9 +378,9 @@ theorem lcpPassGo_good (c : Classifier) (useCalc : Bool) (p : Str) :
           have hzm : z ∈ P := List.mem_of_getLast? hPl
           obtain ⟨ks, kt, e1, e2, hlt⟩ := hcross z hzm r (by simp) x hxm
           rw [hkz] at e1; rw [hk1] at e2; cases e1; cases e2
-          refine ⟨p.length + lcpKeyType kz k1, fun _ => ?_, ?_⟩
+          refine ⟨lcpT (p.length + lcpKeyType kz k1), fun _ => ?_, ?_⟩
           · rw [List.head?_eq_getElem?, hx]
-            exact (keyLt_lcp (hP z hzm) (hrange x hxm) hkz hk1 hlt).symm
+            exact congrArg lcpT (keyLt_lcp (hP z hzm) (hrange x hxm) hkz hk1 hlt).symm
           · simp only [hPne, if_false, setLcp, walkLcp]
             rw [List.set_append_right _ _ (by omega), hlenLP, Nat.sub_self,
               List.set_append_left _ _ (by omega), List.append_assoc]
